@@ -322,10 +322,15 @@ fn one_issuance(ctx: &mut Ctx, pki: &Pki, label: &str, nss: Namespaces, auth: Op
     let dki_v = as_value(&dki);
     // x5chain and its expected header value, built from the certificates' DER directly
     let certs: Vec<x509_cert::Certificate> = if two_certs { vec![pki.ds.clone(), pki.iaca.clone()] } else { vec![pki.ds.clone()] };
+    // every fifth issuance: the chain is supplied as DER and ends with a certificate that parses but is NOT in canonical DER
+    // (x509-cert would write it differently): the header must carry the bytes supplied
+    let supplied_as_der = ctx.evaluations % 5 == 3;
+    let mut ders: Vec<Vec<u8>> = certs.iter().map(|c| c.to_der().unwrap()).collect();
+    if supplied_as_der { let mut r = ctx.rng.clone(); ders.push(crate::c10::noncanonical_cert(&mut r, (ctx.evaluations / 5 % 2) as u8)); ctx.rng = r; ctx.count("x5chain:supplied-as-non-canonical-der"); }
     let mut b = X5Chain::builder();
-    for c in &certs { b = b.with_certificate(c.clone()).expect("cert"); }
+    if supplied_as_der { for d in &ders { b = b.with_der_certificate(d).expect("der cert"); } } else { for c in &certs { b = b.with_certificate(c.clone()).expect("cert"); } }
     let x5chain = b.build().expect("x5chain");
-    let x5_expected = if certs.len() == 1 { bytes(&certs[0].to_der().unwrap()) } else { arr(certs.iter().map(|c| bytes(&c.to_der().unwrap())).collect()) };
+    let x5_expected = if ders.len() == 1 { bytes(&ders[0]) } else { arr(ders.iter().map(|d| bytes(d)).collect()) };
     let signer = if es384 { SignerKey::P384(p384::ecdsa::SigningKey::random(&mut ctx.rng)) } else { SignerKey::P256(pki.ds_key.clone()) };
     let (sig_alg, sig_alg_i) = signer.alg();
 
